@@ -135,6 +135,7 @@ pub fn history(h: u8, players: &[Option<u8>; 4], v: (u8, u8)) -> Option<Vec<Fram
 	const ROWS: usize = 10; // more than 8, so that validity bitmaps span two bytes
 	let straight: [i32; ROWS] = [-123, -122, -121, -120, -119, -118, -117, -116, -115, -114];
 	let rolled: [i32; ROWS] = [-123, -122, -121, -122, -121, -120, -119, -118, -119, -118];
+	let same: [i32; ROWS] = [-123, -122, -122, -121, -121, -121, -120, -119, -119, -118];
 	let items = [0u8, 1, 2, 3, 0, 2, 1, 0, 3, 1];
 	// before 2.2 a frame only exists through its first Pre event, so some character must be present
 	let droppable = !lone || v >= (2, 2);
@@ -153,6 +154,10 @@ pub fn history(h: u8, players: &[Option<u8>; 4], v: (u8, u8)) -> Option<Vec<Fram
 		3 if droppable => (&straight, vec![(follower.unwrap_or(last_leader), vec![5, 6, 7, 8, 9])]),
 		4 if v >= (2, 2) => (&rolled, vec![]),
 		5 if v >= (2, 2) => (&rolled, vec![(follower.unwrap_or(last_leader), vec![2, 3])]),
+		// a rollback that replays the SAME frame id at once; a character absent from the first occurrence and present in the replay
+		7 if v >= (2, 2) && !lone => (&same, vec![(follower.unwrap_or(last_leader), vec![1, 3, 7])]),
+		// the Ice Climbers leader absent while the follower is present (and the other way round two rows later)
+		8 => (&straight, vec![(ics_leader?, vec![0, 2, 5, 6]), (follower?, vec![4, 6])]),
 		_ => return None,
 	};
 	Some(
@@ -282,7 +287,7 @@ pub fn candidates() -> Vec<Spec> {
 	let mut out = vec![];
 	for v in VERSIONS {
 		for players in PORTS {
-			for hist in 0..7u8 {
+			for hist in 0..9u8 {
 				let Some(frames) = history(hist, &players, v) else { continue };
 				for gecko in GECKOS {
 					if gecko.is_some() && v < (3, 3) {
